@@ -118,10 +118,36 @@ var urlFields = map[string]defMap{
 
 var urlSchemas = map[string]*jsonapi.Schema{}
 
+// urlSchemaWithHistory: the same schema as urlSchema, on an object of its own that has been through
+// edits and requests before: every type had one more attribute for a while, collection URLs were
+// parsed meanwhile, and the attribute was removed again.  What a parse returns depends on what the
+// schema holds now, not on what it held or was asked before.
+func urlSchemaWithHistory(impl string) *jsonapi.Schema {
+	s := buildURLSchema(impl)
+	for _, t := range []string{"ta", "tb", "td"} {
+		must(s.AddAttr(t, jsonapi.Attr{Name: "zx", Type: jsonapi.AttrTypeString}))
+	}
+	for _, raw := range []string{"/ta", "/tb", "/td", "/ta/1/rs", "/ta?fields[ta]=zx,x&include=rs,t.q", "/tb/2/s?sort=-z"} {
+		if u, err := jsonapi.NewURLFromRaw(s, raw); err == nil {
+			_ = u.String()
+		}
+	}
+	for _, t := range []string{"ta", "tb", "td"} {
+		s.RemoveAttr(t, "zx")
+	}
+	return s
+}
+
 func urlSchema(impl string) *jsonapi.Schema {
 	if s, ok := urlSchemas[impl]; ok {
 		return s
 	}
+	s := buildURLSchema(impl)
+	urlSchemas[impl] = s
+	return s
+}
+
+func buildURLSchema(impl string) *jsonapi.Schema {
 	s := &jsonapi.Schema{}
 	for _, name := range []string{"ta", "tb", "tc", "td"} {
 		if impl == "wrap" {
@@ -132,7 +158,6 @@ func urlSchema(impl string) *jsonapi.Schema {
 			must(s.AddType(*softType(name, urlFields[name], kindMap{})))
 		}
 	}
-	urlSchemas[impl] = s
 	return s
 }
 
@@ -425,6 +450,9 @@ func runURLCase(c uCase) uEvent {
 		raw = render(c.Req, c.Style)
 	}
 	schema := urlSchema(c.Style.Impl)
+	if c.Style.Order%2 == 1 {
+		schema = urlSchemaWithHistory(c.Style.Impl)
+	}
 	req := c.Req
 	normReq(&req)
 	// what the parser sees in the id position is the style's id: keep the model's token
